@@ -18,6 +18,9 @@ for d in sorted(glob.glob(os.path.join(os.path.dirname(os.path.dirname(os.path.a
         elif 'judgement' in m:
             now = 'out of scope'
             note = m['judgement'].split(';')[0]
+        elif 'not_reached' in m:
+            now = 'not detected'
+            note = 'out of reach: ' + m['not_reached'].split(';')[0]
     rows.append((m['seed_id'], m['property'], m.get('wave', '?'), m.get('needs_to_manifest', '').split(':')[0], first, now, orc, note))
 print('| id | wave | change (see seeded/<id>/notes.md) | first run | now | oracle(s) that fire | strengthening that caught it |')
 print('|---|---|---|---|---|---|---|')
